@@ -675,10 +675,18 @@ impl<'a> Ctx<'a> {
                 let s = if self.rng.chance(1, 3) { o } else { everyone[self.rng.below(everyone.len() as u64) as usize] };
                 self.obs_allowance(&k, o, s);
             }
-            if self.rng.chance(1, 6) {
+            if self.rng.chance(1, 3) {
                 // a simulated mint from the indexer address must not persist (checked by what follows)
                 let a = self.pk_addr[0];
-                let _ = self.eth_call(Some(self.indexer), self.ctl, abi("mint(bytes,address,uint256)", &[Arg::B(k.clone()), Arg::A(a), Arg::U(U256::from(777))]));
+                let mint = abi("mint(bytes,address,uint256)", &[Arg::B(k.clone()), Arg::A(a), Arg::U(U256::from(777))]);
+                // ... through every simulation entry point: eth_call, eth_callMany, eth_estimateGas(Many)
+                match self.rng.below(4) {
+                    0 => { let _ = self.eth_call(Some(self.indexer), self.ctl, mint); }
+                    1 => { let _ = self.run.step(&Op::EthCallMany { calls: vec![sim::CallSpec { from: Some(Hx::addr(self.indexer)), to: Some(Hx::addr(self.ctl)), data: Hx(mint.clone()) },
+                                                                             sim::CallSpec { from: Some(Hx::addr(self.indexer)), to: Some(Hx::addr(self.ctl)), data: Hx(mint) }], block: None, op_return_tx_ids: None }); self.h.reads += 1; }
+                    2 => { let _ = self.run.step(&Op::EstimateGas { from: Some(Hx::addr(self.indexer)), to: Some(Hx::addr(self.ctl)), data: Hx(mint), block: None }); self.h.reads += 1; }
+                    _ => { let _ = self.run.step(&Op::EstimateGasMany { calls: vec![sim::CallSpec { from: Some(Hx::addr(self.indexer)), to: Some(Hx::addr(self.ctl)), data: Hx(mint) }], block: None }); self.h.reads += 1; }
+                }
                 self.obs_tok_balance(&k, a);
                 self.obs_supply(&k);
             }
